@@ -39,6 +39,9 @@ pub struct C13Case {
     pub plan: Plan,
     pub preexisting: Vec<(Res, u64)>,
     pub steps: Vec<SetupStep>,
+    /// drive setup / dispose through the dispatcher's `RunNow` implementation
+    #[serde(default)]
+    pub via_trait: bool,
 }
 
 pub struct C13 {
@@ -117,10 +120,12 @@ impl Prop for C13 {
                 _ => steps.push(SetupStep::Remove(Res::new(src.pick(res::NT), 0))),
             }
         }
+        let via_trait = src.chance(6, 16);
         C13Case {
             plan,
             preexisting,
             steps,
+            via_trait,
         }
     }
     fn check(&self, case: &C13Case, lane: usize, st: &mut Stats) -> Result<(), Fail> {
@@ -150,7 +155,13 @@ impl Prop for C13 {
                     let before = world_contents(&world);
                     let h0 = HANDLER_CALLS.with(|c| c.get());
                     b.ctx.set_phase(PHASE_SETUP);
-                    let r = catch_unwind(AssertUnwindSafe(|| b.d.setup(&mut world)));
+                    let r = catch_unwind(AssertUnwindSafe(|| {
+                        if case.via_trait {
+                            shred::RunNow::setup(&mut b.d, &mut world)
+                        } else {
+                            b.d.setup(&mut world)
+                        }
+                    }));
                     b.ctx.set_phase(PHASE_BUILD);
                     if let Err(p) = r {
                         return Err(Fail::new(format!("setup panicked: {}", panic_msg(&p))));
@@ -220,9 +231,18 @@ impl Prop for C13 {
         }
         // dispose hands every system to its dispose hook exactly once
         let Built { d, ctx, .. } = b;
-        let r = catch_unwind(AssertUnwindSafe(|| d.dispose(&mut world)));
+        let r = catch_unwind(AssertUnwindSafe(|| {
+            if case.via_trait {
+                shred::RunNow::dispose(Box::new(d), &mut world)
+            } else {
+                d.dispose(&mut world)
+            }
+        }));
         if let Err(p) = r {
             return Err(Fail::new(format!("dispose panicked: {}", panic_msg(&p))));
+        }
+        if case.via_trait {
+            st.class("through_RunNow_trait");
         }
         for s in &flat.sys {
             if s.is_batch {
